@@ -26,6 +26,7 @@ def run(ctx):
     rnd = random.Random(ctx.seed)
     events, meta = [], []
     fib = [0]
+    route = [0]
     warnings.filterwarnings("ignore")
 
     def desc(name, obj):
@@ -56,7 +57,13 @@ def run(ctx):
             fib[0] += 1
             o = FIBER(o, L, **kw)
             stages.append(desc("FIBER", o))
-        y = protect(PD(protect(o), min(BWrel, 0.45 * sps) * R, r_, 300.0, RL, "ase-only", 0.0))      # receiver bandwidth >= 0.7 R and below Nyquist
+        # every noise source switched off: through the selection (no thermal, no shot, no dark current), or by making each selected
+        # source vanish (T = 0 K with 'thermal-only')
+        route[0] += 1
+        if route[0] % 3 == 2:
+            y = protect(PD(protect(o), min(BWrel, 0.45 * sps) * R, r_, [0, 0.0][route[0] % 2], RL, "thermal-only", 0.0))
+        else:
+            y = protect(PD(protect(o), min(BWrel, 0.45 * sps) * R, r_, 300.0, RL, "ase-only", 0.0))      # receiver bandwidth >= 0.7 R and below Nyquist
         stages.append(desc("PD", y))
         s = SAMPLER(y, sps // 2)
         stages.append(desc("SAMPLER", s))
@@ -105,7 +112,7 @@ def run(ctx):
         shape = rnd.choice(["nrz", "nrz", "gaussian"]) if sps >= 8 else "nrz"
         with deadline(300):
             chain(bits, sps, rnd.choice([1e9, 2.5e9, 10e9]), shape, rnd.choice([1, 2]), rnd.random() < 0.5, rnd.choice(["none", "DM", "FIBER"]),
-                  rnd.uniform(1, 8), rnd.choice([0, 1, 6]), rnd.choice([10, 13, 26, 40]), 10 ** rnd.uniform(-5, -1), rnd.uniform(0.2, 1.0),
+                  rnd.uniform(1, 8), rnd.choice([0, 1, 6]), rnd.choice([10, 13, 26, 40]), 10 ** rnd.uniform(-8, -1), rnd.uniform(0.2, 1.0),
                   10 ** rnd.uniform(1, 3), rnd.uniform(0.7, 3.0), ("random", kind, sps, shape))
         ctx.case(("random", kind, sps % 2, sps >= 16, shape))
     # ---- 3. packaged decision routines
@@ -148,12 +155,14 @@ def run(ctx):
         berp = ppm.BER_analizer("counter", Tx=bits, Rx=binary_sequence(rxb))
         events.append({"kind": "ber", "k": k, "n": n, "count": int(round(float(berp) * n)), "exact": bool(abs(float(berp) * n - round(float(berp) * n)) < 1e-6)})
         meta.append(("ber", "ppm", "list"))
-    for it in range(48 if T else 12):
-        M = [2, 4, 8, 16][it % 4]
+    for it in range(56 if T else 14):
+        M = [2, 4, 8, 16, 256, 64, 512][it % 7]          # orders beyond one byte of symbol value included
         sps = rnd.choice([8, 16]) if it % 3 else 4
+        if M >= 256:
+            sps = 8 if it % 2 else 4
         gv(sps=sps, R=10e9)
         kbits = M.bit_length() - 1
-        nsym = rnd.choice([16, 32])
+        nsym = rnd.choice([16, 32]) if M < 256 else 24
         bits = [rnd.randrange(2) for _ in range(nsym * kbits)]
         code = ppm.PPM_ENCODER(bits, M)
         x = DAC(code, 0.0, 5.0, "gaussian" if it % 3 == 0 else "nrz")
